@@ -391,6 +391,18 @@ func (w *walker) expr(e ast.Expr) {
 }
 
 func (w *walker) call(c *ast.CallExpr) {
+	// func() (...) { ... }() : a function literal that is called on the spot is an inlined block with its own deferred
+	// calls (they run when the literal returns, i.e. right here)
+	if fl, ok := c.Fun.(*ast.FuncLit); ok && len(c.Args) == 0 {
+		savedDeferred, savedExplicit := w.deferred, w.explicit
+		w.deferred, w.explicit = nil, 0
+		w.stmts(fl.Body.List, true)
+		for i := len(w.deferred) - 1; i >= 0; i-- {
+			w.out = append(w.out, w.deferred[i])
+		}
+		w.deferred, w.explicit = savedDeferred, savedExplicit
+		return
+	}
 	// delete(s.F, k)
 	if id, ok := c.Fun.(*ast.Ident); ok && id.Name == "delete" && len(c.Args) == 2 {
 		if f, ok := w.selfField(c.Args[0]); ok {
